@@ -233,6 +233,34 @@ seed("C16", "fill-oldest-slot", "ProcessFrame copies the source into the ring's 
 seed("C16", "requester-early-unlock", "newSnapshot releases the mutex before using the processor", ["C16.R4", "C16.R1"],
      (SNAP, "func newSnapshot(lastFrame int) (*cptvframe.Frame, error) {\n\tmu.Lock()\n\tdefer mu.Unlock()\n", "func newSnapshot(lastFrame int) (*cptvframe.Frame, error) {\n\tmu.Lock()\n\tmu.Unlock()\n"))
 
+TW = "cmd/thermal-writer/main.go"
+TR = "cmd/thermal-writer/thermalraw.go"
+BF = "cmd/thermal-writer/bufferedfile.go"
+# ---- C18
+seed("C18", "single-buffer", "all in-flight slots share one buffer", ["C18.W1"],
+     (TW, "\tfor i := 0; i < inFlight; i++ {\n\t\tspentFrames <- make([]byte, header.FrameSize())\n\t}", "\tone := make([]byte, header.FrameSize())\n\tfor i := 0; i < inFlight; i++ {\n\t\tspentFrames <- one\n\t}"))
+seed("C18", "use-after-send", "frame inspected after being handed to the writer", ["C18.W1"],
+     (TW, "\t\twriteFrames <- frame\n\t\tchLen := len(writeFrames)", "\t\twriteFrames <- frame\n\t\tif frame[0] == 0 {\n\t\t\tlog.Print(\"zero lead byte\")\n\t\t}\n\t\tchLen := len(writeFrames)"))
+seed("C18", "no-close-on-disconnect", "write channel not closed when the connection ends", ["C18.W4"],
+     (TW, "\t\tif err != nil {\n\t\t\tclose(writeFrames)\n\t\t\treturn err\n\t\t}", "\t\tif err != nil {\n\t\t\treturn err\n\t\t}"))
+seed("C18", "writer-returns-without-close", "writer returns without closing the builder", ["C18.W4"],
+     (TW, "\t\t\tif !ok {\n\t\t\t\tbuilder.Close()\n\t\t\t\treturn\n\t\t\t}", "\t\t\tif !ok {\n\t\t\t\treturn\n\t\t\t}"))
+seed("C18", "framesize-from-header", "FrameSize field taken from the header, not the slice", ["C18.W5"],
+     (TR, "func writeFrame(b *Builder, frame []byte) error {\n\tfields := cptv.NewFieldWriter()\n\tfields.Uint32(cptv.FrameSize, uint32(len(frame)))", "func writeFrame(b *Builder, frame []byte) error {\n\tfields := cptv.NewFieldWriter()\n\tfields.Uint32(cptv.FrameSize, uint32(cap(frame)-1))"))
+seed("C18", "fewer-buffers-than-capacity", "fewer buffers than channel capacity are injected", ["C18.W3"],
+     (TW, "for i := 0; i < inFlight; i++ {", "for i := 0; i < inFlight/2; i++ {"))
+seed("C18", "close-without-flush", "file closed without flushing", ["C18.W4"],
+     (BF, "\tif err := bf.w.Flush(); err != nil {\n\t\treturn err\n\t}\n\treturn bf.f.Close()", "\treturn bf.f.Close()"))
+seed("C18", "frame-data-before-fields", "frame data written before its fields", ["C18.W5"],
+     (TR, "\t// Frame fields\n\t_, err = b.w.Write(fieldData)\n\tif err != nil {\n\t\treturn err\n\t}\n\n\t// Frame thermal data\n\t_, err = b.w.Write(frameData)\n\treturn err", "\t_, err = b.w.Write(frameData)\n\tif err != nil {\n\t\treturn err\n\t}\n\t_, err = b.w.Write(fieldData)\n\treturn err"))
+seed("C18", "handback-before-write", "buffer handed back before it is written", ["C18.W1", "C18.W2"],
+     (TW, "\t\t\tif err := writeFrame(builder, frame); err != nil {\n\t\t\t\tpanic(err)\n\t\t\t}\n\t\t\toutFrames <- frame // Return the frame to be reused", "\t\t\toutFrames <- frame // Return the frame to be reused\n\t\t\tif err := writeFrame(builder, frame); err != nil {\n\t\t\t\tpanic(err)\n\t\t\t}"))
+seed("C18", "builder-retains-frame", "builder keeps a reference to the last frame", ["C18.W2"],
+     (TR, "type Builder struct {\n\tw io.WriteCloser\n}", "type Builder struct {\n\tw    io.WriteCloser\n\tlast []byte\n}"),
+     (TR, "\t// Frame thermal data\n\t_, err = b.w.Write(frameData)", "\t// Frame thermal data\n\tb.last = frameData\n\t_, err = b.w.Write(frameData)"))
+seed("C18", "magic-changed", "file magic changed", ["C18.W5"],
+     (TR, 'thermalRawMagic        = "CPTR"', 'thermalRawMagic        = "CPTX"'))
+
 here = os.path.dirname(os.path.abspath(__file__))
 for pid, name, d in S:
     os.makedirs(os.path.join(here, pid), exist_ok=True)
